@@ -367,6 +367,34 @@ class Program:
         r = re.compile(regex)
         return [b for i, b in self.bodies.items() if r.search(i)]
 
+    def named_constants(self):
+        """{const item path: value} for every named constant that occurs as an operand in some body or promoted body (ints as int, floats decoded from the
+        exported bit pattern)."""
+        if hasattr(self, '_consts'):
+            return self._consts
+        import struct
+        out = {}
+
+        def walk(o):
+            if isinstance(o, dict):
+                if o.get('k') == 'c' and o.get('cdef'):
+                    if 'fbits' in o:
+                        v = struct.unpack('<f', struct.pack('<I', o['fbits']))[0] if o.get('fsize') == 32 else struct.unpack('<d', struct.pack('<Q', o['fbits']))[0]
+                        out.setdefault(o['cdef'], v)
+                    elif 'int' in o:
+                        out.setdefault(o['cdef'], o['int'])
+                for v in o.values():
+                    walk(v)
+            elif isinstance(o, list):
+                for v in o:
+                    walk(v)
+        for b in self.bodies.values():
+            walk(b.blocks)
+            for pb in b.promoted:
+                walk(pb.blocks)
+        self._consts = out
+        return out
+
     def family(self, body):
         """root body + every nested closure / coroutine body."""
         if isinstance(body, str):
